@@ -6,6 +6,7 @@ from ..util import func
 from . import numpy_wrapper as anp
 from .numpy_boxes import ArrayBox
 from .numpy_vjps import (
+    _discrete,
     balanced_eq,
     dot_adjoint_0,
     dot_adjoint_1,
@@ -35,7 +36,7 @@ defjvp(
     None,
     lambda g, ans, args, kwargs, _: (
         anp._array_from_scalar_or_array(args, kwargs, g)
-        if onp.issubdtype(anp.metadata(ans)[2], onp.inexact)
+        if not _discrete(ans)
         else vspace(ans).zeros()  # cast to an integer / boolean dtype: piecewise constant
     ),
 )
